@@ -60,7 +60,7 @@ ezc3d::c3d::c3d(const std::string &filePath):
 
 ezc3d::c3d::~c3d()
 {
-    delete c_float;
+    delete[] c_float;
 }
 
 void ezc3d::c3d::print() const
